@@ -250,10 +250,19 @@ KF_TlvTail(c, typ, ek, hdr) ==
 KF_PrefixSidTail(c)   == KF_TlvTail(c, 40, "t1l2", 3)
 KF_TunnelEncapTail(c) == KF_TlvTail(c, 23, "t2l2", 4)
 
-C05_RenderSafe_KF == \A c \in Cases : Used(c) => (~c.rpanic \/ KF_PmsiRender(c))
+(* KF-C05-vpls-length-ignored: VPLSNLRI.decodeFromBytes reads the 2-octet length, checks only that
+   many octets are there, and then decodes (and reports Len() =) 19 octets whatever the length says;
+   length 12 (BGP-AD) is accepted without decoding anything. *)
+KF_VplsLength(c) == ConcernsSafi(c, 65)
+KF_VplsRender(c) ==
+  /\ c.rpanic
+  /\ \/ c.rat = "nlri(*bgp.VPLSNLRI).Serialize"
+     \/ (c.rat \in {"attr14.Serialize", "attr15.Serialize", "msg.Serialize", "msg.Serialize0"} /\ ConcernsSafi(c, 65))
+
+C05_RenderSafe_KF == \A c \in Cases : Used(c) => (~c.rpanic \/ KF_PmsiRender(c) \/ KF_VplsRender(c))
 C05_NoOverRead_KF ==
   \A c \in Cases : \/ OverReadOk(c) \/ KF_BodyIgnoresHdrLen(c) \/ KF_EncapShort(c)
-                    \/ KF_PrefixSidTail(c) \/ KF_TunnelEncapTail(c)
+                    \/ KF_PrefixSidTail(c) \/ KF_TunnelEncapTail(c) \/ KF_VplsLength(c)
 
 C05_KfCount ==
   /\ KfNote("KF-C05-pmsi-render", "C05_RenderSafe", \E c \in Cases : Used(c) /\ KF_PmsiRender(c))
@@ -262,4 +271,6 @@ C05_KfCount ==
   /\ KfNote("KF-C05-encap-short", "C05_NoOverRead", \E c \in Cases : ~OverReadOk(c) /\ KF_EncapShort(c))
   /\ KfNote("KF-C05-prefixsid-tail", "C05_NoOverRead", \E c \in Cases : ~OverReadOk(c) /\ KF_PrefixSidTail(c))
   /\ KfNote("KF-C05-tunnelencap-tail", "C05_NoOverRead", \E c \in Cases : ~OverReadOk(c) /\ KF_TunnelEncapTail(c))
+  /\ KfNote("KF-C05-vpls-length-ignored", "C05_NoOverRead", \E c \in Cases : ~OverReadOk(c) /\ KF_VplsLength(c))
+  /\ KfNote("KF-C05-vpls-length-ignored", "C05_RenderSafe", \E c \in Cases : Used(c) /\ KF_VplsRender(c))
 =============================================================================
